@@ -241,6 +241,8 @@ func C04(ctx *core.Ctx) {
 		}
 	}
 
+	c04ReceivedContext(ctx, r)
+
 	// ---- S5 ---------------------------------------------------------------------------
 	py := filepath.Join(ctx.RepoDir, "lib/python/frugal/util/headers.py")
 	out, err := exec.Command("python3", filepath.Join(ctx.VerifDir, "scripts/py_headers.py"), py).Output()
